@@ -999,12 +999,12 @@ func streamC09(h *H) {
 
 func streamC10(h *H) {
 	// (a) the planner under full-prune options on synthetic inputs: exact plan and statistics
-	n := h.N(300, 8000)
+	n := h.N(300, 4000)
 	for i := 0; i < n; i++ {
 		c09SynthCase(h, 1000000+i, true)
 	}
 	// (b) completed full prunes of real histories: after-state and reported statistics
-	nh := h.N(8, 240)
+	nh := h.N(8, 120)
 	for i := 0; i < nh; i++ {
 		x := c09GenHistory(h)
 		run, ok := c09Prepare(x)
